@@ -317,6 +317,11 @@ func casesText(c *caseCtx) {
 		"٨/8/8/8/8/8/8/8 w - - 0 1", "Ｋ7/8/8/8/8/8/8/8 w - - 0 1", "8/8/8/8/8/8/8/8 w - - 0 1 extra", "  " + fen.Initial + "\n",
 		"rnbqkbnr/pppppppp/8/8/8/8/PPPPPPPP/RNBQKBNRR w KQkq - 0 1", "pppppppp/8/8/8/8/8/8/PPPPPPPP w - - 0 1", "8/8/8/8/8/8/8/8 w KQkqKQ a9 0 1",
 		"8/8/8/8/8/8/8/8\tw - - 0 1", "8/8/8/8/8/8/8/8 w - - 0 1",
+		// numbers at the ends of the ranges of the number types involved (Go int, OCaml's 63-bit int in the driver)
+		"4k3/8/8/8/8/8/8/4K3 w - - 4611686018427387903 4611686018427387904", "4k3/8/8/8/8/8/8/4K3 w - - 4611686018427387904 4611686018427387903",
+		"4k3/8/8/8/8/8/8/4K3 b - - 9223372036854775807 9223372036854775807", "4k3/8/8/8/8/8/8/4K3 b - - 62 8888888888888888888",
+		"4k3/8/8/8/8/8/8/4K3 w - - 0 9223372036854775808", "4k3/8/8/8/8/8/8/4K3 w - - 18446744073709551616 1", "4k3/8/8/8/8/8/8/4K3 w - - 0 99999999999999999999",
+		"4k3/8/8/8/8/8/8/4K3 w - - 2147483648 4294967296", "4k3/8/8/8/8/8/8/4K3 w - - 0000000000000000000000007 000000000000000000000000000000012",
 	}
 	for _, s := range curated {
 		c.emit("decode %s => %s", codes(s), decodeObs(s))
